@@ -31,6 +31,9 @@ WRONG = {
     "Wahrheitswert": ['"w"', "'q'", "3"],
 }
 PNAMES = ["a", "b", "c", "d", "e", "g", "h", "k", "m", "n"]
+# argument expressions that carry a type error of their OWN inside (reported while the argument is evaluated, before it is
+# compared with the parameter type)
+NESTED_FAULTY = ['(1 plus "w")', '("a" mal 2)', "(wahr minus 1)", "(die Länge von 5)", "(nicht 3)", "('c' durch 2)", '(2 hoch "x")', "(der Betrag von wahr)"]
 
 
 def params_phrase(names, types):
@@ -342,6 +345,9 @@ def _call_family(rnd, idx, mode):
     elif mode == "undef2":
         for i in rnd.sample(range(k), rnd.randint(2, k)):
             args[i] = "unbekannt_%d" % i
+    elif mode == "nested2":
+        for i in rnd.sample(range(k), rnd.randint(2, k)):
+            args[i] = rnd.choice(NESTED_FAULTY)
     elif mode == "one":
         i = rnd.randrange(k)
         args[i] = rnd.choice(WRONG[types[i]]) if rnd.random() < 0.5 else "unbekannt_%d" % i
@@ -368,7 +374,7 @@ def _call_family(rnd, idx, mode):
                 a2[i] = rnd.choice(WRONG[types[i]])
             c2 = ("nimm " + " ".join("%s %s" % (alias_words[i], a2[i]) for i in range(k))) if alias_words else "nimm " + " ".join(a2)
             body += "Die Zahl weiter%d ist %s.\n" % (j, c2)
-    exp = {"types2": "typechecker_funccall_args", "undef2": "resolver_args"}.get(mode)
+    exp = {"types2": "typechecker_funccall_args", "undef2": "resolver_args", "nested2": "typechecker_funccall_args"}.get(mode)
     return prog("call_%s_%d" % (mode, idx), "call_args(%s)" % mode, {"main.ddp": AUSGABE + src + body}, expect=exp)
 
 
@@ -385,13 +391,16 @@ def _struct_family(rnd, idx, mode):
     elif mode == "undef2":
         for i in rnd.sample(range(k), rnd.randint(2, k)):
             args[i] = "unbekannt_%d" % i
+    elif mode == "nested2":
+        for i in rnd.sample(range(k), rnd.randint(2, k)):
+            args[i] = rnd.choice(NESTED_FAULTY)
     elif mode == "one":
         i = rnd.randrange(k)
         args[i] = rnd.choice(WRONG[types[i]])
     body = "Der Ding ding ist ein Ding mit %s.\n" % " ".join(args)
     if mode == "valid":
         body += "Schreibe (%s von ding) auf eine Zeile.\n" % fnames[0]
-    exp = {"types2": "typechecker_structliteral_args", "undef2": "resolver_args"}.get(mode)
+    exp = {"types2": "typechecker_structliteral_args", "undef2": "resolver_args", "nested2": "typechecker_structliteral_args"}.get(mode)
     return prog("struct_%s_%d" % (mode, idx), "struct_literal(%s)" % mode, {"main.ddp": AUSGABE + src + body}, expect=exp)
 
 
@@ -401,6 +410,14 @@ def gen_call_types2(rnd, idx):
 
 def gen_call_undef2(rnd, idx):
     return _call_family(rnd, idx, "undef2")
+
+
+def gen_call_nested2(rnd, idx):
+    return _call_family(rnd, idx, "nested2")
+
+
+def gen_struct_nested2(rnd, idx):
+    return _struct_family(rnd, idx, "nested2")
 
 
 def gen_call_one(rnd, idx):
@@ -567,6 +584,7 @@ FAMILIES = [
     (gen_directory_import, 2), (gen_import_overload_ties, 2), (gen_call_types2, 4), (gen_call_undef2, 2), (gen_call_one, 3),
     (gen_call_valid, 3), (gen_struct_types2, 3), (gen_struct_undef2, 1), (gen_struct_one, 2), (gen_generic_struct_alias, 1),
     (gen_alias_ties, 3), (gen_diamond, 3), (gen_extern, 2), (gen_extern_archives, 1), (gen_extern_broken, 1), (gen_multi_error, 2),
+    (gen_call_nested2, 4), (gen_struct_nested2, 2),
 ]
 
 
@@ -618,6 +636,10 @@ def catalogue():
     # --- argument maps
     c.append(prog("args_min_types", "catalogue:call with 3 wrong argument types", {"main.ddp": _F3 + "\nDie Zahl z ist f \"x\" wahr 'c'.\n"}, expect="typechecker_funccall_args"))
     c.append(prog("args_min_two", "catalogue:call with 2 wrong argument types", {"main.ddp": _F3 + "\nDie Zahl z ist f \"x\" 2 'c'.\n"}, expect="typechecker_funccall_args"))
+    c.append(prog("args_min_nested", "catalogue:call with 3 arguments that each contain a type error of their own",
+                  {"main.ddp": _F3 + "\nDie Zahl z ist f (1 plus \"x\") (2 plus \"y\") (3 plus \"z\").\n"}, expect="typechecker_funccall_args"))
+    c.append(prog("struct_min_nested", "catalogue:struct literal with 3 fields that each contain a type error of their own",
+                  {"main.ddp": _V3 + "\nDer Vektor v ist ein Vektor mit (1 plus \"x\") (2 plus \"y\") (3 plus \"z\").\n"}, expect="typechecker_structliteral_args"))
     c.append(prog("args_ctl_one", "catalogue:call with 1 wrong argument type", {"main.ddp": _F3 + "\nDie Zahl z ist f 1 wahr 3.\n"}))
     c.append(prog("args_min_undef", "catalogue:call with 3 undefined arguments", {"main.ddp": _F3 + "\nDie Zahl z ist f u1 u2 u3.\n"}, expect="resolver_args"))
     c.append(prog("args_ctl_nested", "catalogue:valid call with nested expressions in all arguments",
